@@ -539,6 +539,13 @@ class FnTr(object):
                     raise Unsupported("impure method self.%s used inside an expression" % f.attr)
                 args = self.call_args(cf, e.args)
                 return self.bind("%s v_self %s" % (callee, " ".join(args)))
+            if isinstance(f.value, ast.Name) and (f.value.id, f.attr) in getattr(self.u, "typed_methods", {}):
+                callee = self.u.typed_methods[(f.value.id, f.attr)]
+                if callee not in getattr(self.u, "external_pure", ()):
+                    raise Unsupported("%s.%s() is not available as a pure translated function" % (f.value.id, f.attr))
+                return self.bind("%s %s %s" % (callee, self.expr(f.value), " ".join(self.expr(a) for a in e.args)))
+            if f.attr == "encode" and len(e.args) == 1 and const_fold_str(e.args[0]) in ("utf8", "utf-8"):
+                return self.bind("Py.encodeUtf8 %s" % self.expr(f.value))
             if f.attr == "get" and len(e.args) == 1:
                 return self.bind("Py.dictGet %s %s" % (self.expr(f.value), self.expr(e.args[0])))
             if f.attr == "pack" and not e.args and isinstance(f.value, ast.Name) and f.value.id == "msg":
@@ -585,6 +592,15 @@ class FnTr(object):
             u = self.bind("Py.unpackN %s %d" % (atom, len(target.elts)))
             for i, x in enumerate(target.elts):
                 self.store(x, "(Py.nth %s %d)" % (u, i))
+        elif isinstance(target, ast.Subscript) and isinstance(target.slice, ast.Slice):
+            sl = target.slice
+            if sl.step is not None or sl.lower is None or sl.upper is None:
+                raise Unsupported("slice assignment form")
+            cur = self.expr(target.value)
+            lo = self.expr(sl.lower)
+            hi = self.expr(sl.upper)
+            nv = self.bind("Py.setSlice %s %s %s %s" % (cur, lo, hi, atom))
+            self.store(target.value, nv)
         elif isinstance(target, (ast.Attribute, ast.Subscript)):
             root, accs = self.path_of(target)
             if root in self.aliases:
@@ -653,7 +669,8 @@ class FnTr(object):
                 return
             atom = self.expr(val)
             # a local bound to a part of another object is an alias: it may be read, not mutated through
-            if isinstance(tgt, ast.Name) and isinstance(val, (ast.Attribute, ast.Subscript, ast.Name)):
+            if isinstance(tgt, ast.Name) and isinstance(val, (ast.Attribute, ast.Subscript, ast.Name)) \
+                    and not (isinstance(val, ast.Name) and __import__("re").fullmatch(r"eff\d+", val.id)):      # an effect's result is a fresh value
                 self.store(tgt, atom)
                 self.aliases.add(tgt.id)
             else:
@@ -1091,9 +1108,10 @@ def _is_self_call(node, names):
 class _EffRewrite(ast.NodeTransformer):
     """replaces the k-th call `self.<effect>(...)` (in source order) by the parameter `eff<k>`; awaits erased, logging dropped"""
 
-    def __init__(self, names):
+    def __init__(self, names, rebinds=None):
         self.names = names
         self.effects = []     # (param, method, [arg ASTs])
+        self.rebinds = rebinds or {}   # effect name -> index of the argument whose state AFTER the effect is the effect's result
 
     def visit_Await(self, node):
         return self.visit(node.value)
@@ -1127,6 +1145,11 @@ class _EffRewrite(ast.NodeTransformer):
         v = node.value.value if isinstance(node.value, ast.Await) else node.value
         if isinstance(v, ast.Call) and isinstance(v.func, ast.Attribute) and isinstance(v.func.value, ast.Name) and v.func.value.id == "_LOGGER":
             return ast.Pass()
+        en = _effect_name(v, self.names) if isinstance(v, ast.Call) else None
+        if en in self.rebinds and isinstance(v.args[self.rebinds[en]], ast.Name):
+            tgt = v.args[self.rebinds[en]].id
+            self.generic_visit(node)
+            return ast.Assign(targets=[ast.Name(id=tgt, ctx=ast.Store())], value=node.value, lineno=0)
         self.generic_visit(node)
         return node
 
@@ -1156,17 +1179,37 @@ def _cut_at(block, k, effects):
     return out
 
 
-def effect_function(fn_node, effect_names, wrap_result=True):
+def const_fold_str(e):
+    return e.value if isinstance(e, ast.Constant) and isinstance(e.value, str) else None
+
+
+class _ReturnWith(ast.NodeTransformer):
+    """`return X` -> `return (X, p1, ...)`: the method mutates its arguments p1..., the pure function returns their final state"""
+
+    def __init__(self, ps):
+        self.ps = ps
+
+    def visit_Return(self, node):
+        return ast.Return(value=ast.Tuple(elts=[node.value if node.value is not None else ast.Constant(value=None)] + [ast.Name(id=p_, ctx=ast.Load()) for p_ in self.ps], ctx=ast.Load()))
+
+    def visit_FunctionDef(self, node):
+        return node
+
+
+def effect_function(fn_node, effect_names, wrap_result=True, rebinds=None, out_params=()):
     """A method that performs effects through `self.<effect_names>(...)` as pure functions: `<fn>__fn(params, eff0, eff1, ...)` = the method with the effects'
     RESULTS as parameters, and `<fn>__eff<k>_args(params, eff0..eff<k-1>)` = ('request', method, args...) of the k-th effect when the method gets that far
     (otherwise whatever the method returns/raises before)."""
     import copy as _copy
     body = strip_docstring(list(_copy.deepcopy(fn_node.body)))
-    rw = _EffRewrite(effect_names)
+    rw = _EffRewrite(effect_names, rebinds)
     new_body = []
     for st in body:
         r = rw.visit(st)
         new_body += r if isinstance(r, list) else [r]
+    if out_params:
+        rt = _ReturnWith(list(out_params))
+        new_body = [rt.visit(st) for st in new_body] + [ast.Return(value=ast.Tuple(elts=[ast.Constant(value=None)] + [ast.Name(id=p_, ctx=ast.Load()) for p_ in out_params], ctx=ast.Load()))]
     params = [a.arg for a in fn_node.args.args if a.arg != "self"]
     uses_self = any(isinstance(x, ast.Name) and x.id == "self" for st in new_body for x in ast.walk(st))
     if uses_self:
@@ -1307,6 +1350,12 @@ def build_units(repo):
                                 u.add_function("", node, lean="%s_%s" % (tag, suffix), params=[a.arg for a in node.args.args])
                         finally:
                             pass
+                    elif m.name == "_filesync_send":
+                        # `_filesync_flush(adb_info, filesync_info)` mutates filesync_info: the effect's result IS filesync_info afterwards
+                        u.typed_methods = {("filesync_info", "can_add_to_send_buffer"): "FileSyncTransactionInfo_can_add_to_send_buffer"}
+                        main, argfns, info = effect_function(m, {"_filesync_flush"}, rebinds={"_filesync_flush": 1}, out_params=["filesync_info"])
+                        for node, suffix in [(main, "fn")] + [(a, a.name.split("__")[-1]) for a in argfns]:
+                            u.add_function("", node, lean="%s_%s" % (tag, suffix), params=[a.arg for a in node.args.args])
                     elif m.name in ("_filesync_read_buffered", "_filesync_flush"):
                         for suffix, node in loop_method(m, STREAM_EFFECTS):
                             u.add_function("", node, lean="%s_%s" % (tag, suffix), params=[a.arg for a in node.args.args])
